@@ -14,45 +14,7 @@ from .. import core, pyz
 
 LEVEL = "model_checking"
 
-IGNORE = "# static analysis: ignore"
-REAL_CODE = {"c1": "undefined_name", "c2": "unsupported_operation", "c3": "incompatible_call"}
-ABSTRACT = {v: k for k, v in REAL_CODE.items()}
-META = {"unused_ignore", "bare_ignore"}
-
-
-def render_line(ln: dict, n: int) -> str:
-    kind = ln["kind"]
-    if kind == "blank":
-        return ""
-    if kind == "comment":
-        return "# a comment"
-    ign = ln["ign"]
-    suffix = "" if ign == "none" else IGNORE + ("" if ign == "bare" else f"[{REAL_CODE[ign]}]")
-    if kind == "own":
-        return suffix
-    d = list(ln["diags"])
-    if d == []:
-        body = "lambda: 0"
-    elif d == ["c1"]:
-        body = f"lambda: zz_undefined_{n}"
-    elif d == ["c2"]:
-        body = 'lambda: 1 + ""'
-    elif d == ["c1", "c2"]:
-        body = f'lambda: (zz_undefined_{n}, 1 + "")'
-    else:
-        raise core.MachineryError(f"cannot realise diagnostics {d}")
-    return body + ("  " + suffix if suffix else "")
-
-
-def render(case: dict) -> str:
-    return "\n".join(render_line(ln, i) for i, ln in enumerate(case["lines"], 1)) + "\n"
-
-
-def settings_of(case: dict) -> dict[str, bool]:
-    st = {REAL_CODE[c]: False for c in case["disabled"]}
-    st["unused_ignore"] = bool(case["unused_on"])
-    st["bare_ignore"] = bool(case["bare_on"])
-    return st
+from ..supp_common import ABSTRACT, META, REAL_CODE, render, settings_of  # noqa: E402
 
 
 def observe_one(arg: tuple[int, dict]) -> list[dict]:
